@@ -183,6 +183,7 @@ fn case(tier: Tier, rng: &mut Rng, rep: &mut Report) {
     spec.geom_truncate = if rng.chance(0.3) { rng.urange(1, (net.ne() / 2).max(1)) } else { 0 };
     spec.gzip = rng.chance(0.2);
     spec.geom_repeat = rng.chance(0.4);
+    spec.geom_single = rng.chance(0.3);
     spec.geom_reversed = rng.chance(0.3);
     spec.uuid_blanks = rng.chance(0.3);
     let app_route_fmt = rng.below(5);
